@@ -20,6 +20,16 @@ Arguments Err {A} e.
 Definition bind {A B} (r : res A) (f : A -> res B) : res B :=
   match r with Ok a => f a | Err e => Err e end.
 
+(* [fm v = v mod P] (VmRunFacts.fm_mod), computed without a division when v is within one P of the
+   canonical range -- the complete 8-bit sweeps evaluate it millions of times *)
+Definition Pc : Z := Eval vm_compute in P.          (* P as a literal *)
+Definition Pc2 : Z := Eval vm_compute in 2 * P.
+Definition B128 : Z := Eval vm_compute in 2 ^ 128.   (* the range-check bound as a literal *)
+Definition fm (v : Z) : Z :=
+  if v <? 0 then (if - Pc <=? v then v + Pc else v mod Pc)
+  else if v <? Pc then v
+  else if v <? Pc2 then v - Pc else v mod Pc.
+
 Section Vm.
 Variable cf : cfg.
 
@@ -28,24 +38,24 @@ Definition pwrite (m : pmem) (addr v : Z) : res pmem :=
   match lookup addr m with
   | Some v' => if v' =? v then Ok m else Err EInconsistent
   | None =>
-      if (rc_lo cf <=? addr) && (addr <? rc_hi cf) && negb ((0 <=? v) && (v <? 2 ^ 128))
+      if (rc_lo cf <=? addr) && (addr <? rc_hi cf) && negb ((0 <=? v) && (v <? B128))
       then Err ERange else Ok ((addr, v) :: m)
   end.
 
 Definition caddr (s : st) (x : cellref) : Z := regv s (c_reg x) + c_off x.
 Definition pcell (m : pmem) (s : st) (x : cellref) : option Z := lookup (caddr s x) m.
 Definition pdoi (m : pmem) (s : st) (d : doi) : option Z :=
-  match d with DDeref x => pcell m s x | DImm v => Some (v mod P) end.
+  match d with DDeref x => pcell m s x | DImm v => Some (fm v) end.
 Definition pres (m : pmem) (s : st) (r : resop) : option Z :=
   match r with
   | RDeref x => pcell m s x
   | RDouble x o =>
-      match pcell m s x with Some a => lookup ((a + o) mod P) m | None => None end
-  | RImm v => Some (v mod P)
+      match pcell m s x with Some a => lookup (fm (a + o)) m | None => None end
+  | RImm v => Some (fm v)
   | RBin op a b =>
       match pcell m s a, pdoi m s b with
       | Some x, Some y =>
-          Some (match op with OAdd => (x + y) mod P | OMul => (x * y) mod P end)
+          Some (match op with OAdd => fm (x + y) | OMul => fm (x * y) end)
       | _, _ => None
       end
   end.
@@ -60,13 +70,13 @@ Definition do_assert (m : pmem) (s : st) (a : cellref) (b : resop) : res pmem :=
       | RDeref y => pwrite m (caddr s y) x
       | RDouble y o =>
           match pcell m s y with
-          | Some p => pwrite m ((p + o) mod P) x
+          | Some p => pwrite m (fm (p + o)) x
           | None => Err EUnknown
           end
       | RBin OAdd u v =>
           match pcell m s u, pdoi m s v, v with
-          | Some xu, None, DDeref yv => pwrite m (caddr s yv) ((x - xu) mod P)
-          | None, Some xv, _ => pwrite m (caddr s u) ((x - xv) mod P)
+          | Some xu, None, DDeref yv => pwrite m (caddr s yv) (fm (x - xu))
+          | None, Some xv, _ => pwrite m (caddr s u) (fm (x - xv))
           | _, _, _ => Err EUnknown
           end
       | RBin OMul _ _ => Err EUnsupported      (* deduction by field division: not needed here *)
@@ -77,10 +87,10 @@ Definition do_assert (m : pmem) (s : st) (a : cellref) (b : resop) : res pmem :=
 
 Definition ptarget (m : pmem) (s : st) (t : doi) (rel : bool) : option Z :=
   match t with
-  | DImm v => Some (if rel then pc s + v else v mod P)
+  | DImm v => Some (if rel then pc s + v else fm v)
   | DDeref x =>
       match pcell m s x with
-      | Some v => Some (if rel then (pc s + v) mod P else v)
+      | Some v => Some (if rel then fm (pc s + v) else v)
       | None => None
       end
   end.
@@ -180,7 +190,7 @@ Definition honest : hint_sem := fun h s m =>
   | HWideMul128 lhs rhs high low =>
       match pres m s lhs, pres m s rhs with
       | Some a, Some b =>
-          bind (wcell m s high ((a * b) / 2 ^ 128)) (fun m1 => wcell m1 s low ((a * b) mod 2 ^ 128))
+          bind (wcell m s high ((a * b) / B128)) (fun m1 => wcell m1 s low ((a * b) mod B128))
       | _, _ => Err EHint
       end
   | HDivMod lhs rhs q r =>
@@ -200,18 +210,18 @@ Definition honest : hint_sem := fun h s m =>
       | Some v, Some sc, Some mx =>
           if sc =? 0 then Err EHint else
           let xv := Z.min (v / sc) mx in
-          bind (wcell m s x xv) (fun m1 => wcell m1 s y ((v - xv * sc) mod P))
+          bind (wcell m s x xv) (fun m1 => wcell m1 s y (fm (v - xv * sc)))
       | _, _, _ => Err EHint
       end
   | HUint256DivMod d0 d1 v0 v1 q0 q1 r0 r1 =>
       match pres m s d0, pres m s d1, pres m s v0, pres m s v1 with
       | Some a0, Some a1, Some b0, Some b1 =>
-          let a := a0 + a1 * 2 ^ 128 in let b := b0 + b1 * 2 ^ 128 in
+          let a := a0 + a1 * B128 in let b := b0 + b1 * B128 in
           if b =? 0 then Err EHint else
           let q := a / b in let r := a mod b in
-          bind (wcell m s q0 (q mod 2 ^ 128)) (fun m1 =>
-          bind (wcell m1 s q1 (q / 2 ^ 128)) (fun m2 =>
-          bind (wcell m2 s r0 (r mod 2 ^ 128)) (fun m3 => wcell m3 s r1 (r / 2 ^ 128))))
+          bind (wcell m s q0 (q mod B128)) (fun m1 =>
+          bind (wcell m1 s q1 (q / B128)) (fun m2 =>
+          bind (wcell m2 s r0 (r mod B128)) (fun m3 => wcell m3 s r1 (r / B128))))
       | _, _, _, _ => Err EHint
       end
   | HAllocSegment _ => Err EHint
@@ -221,8 +231,8 @@ End Vm.
 
 (* ---------- the fixed frame used by the completeness statements ---------- *)
 Definition AP0 : Z := 1000.
-Definition RC0 : Z := 2 ^ 20.
-Definition CFG : cfg := {| rc_lo := 2 ^ 20; rc_hi := 2 ^ 21 |}.
+Definition RC0 : Z := Eval vm_compute in 2 ^ 20.
+Definition CFG : cfg := Eval vm_compute in {| rc_lo := 2 ^ 20; rc_hi := 2 ^ 21 |}.
 
 (* arguments occupy [AP0 - 2 - n, AP0 - 2) *)
 Fixpoint place (a : Z) (l : list Z) : pmem :=
